@@ -128,6 +128,14 @@ impl<Endpoint: Display + PartialEq + Clone> Subject<Endpoint> {
             .and_modify(|resource| {
                 resource.sequence += 1;
 
+                if is_confirmable {
+                    // An observer whose counter is already at its maximum
+                    // exceeds every possible limit with this update.
+                    resource.observers.retain(|observer| {
+                        observer.unacknowledged_messages < u8::MAX
+                    });
+                }
+
                 resource.observers.iter_mut().for_each(|observer| {
                     observer.message_id = Some(message_id);
                     if is_confirmable {
